@@ -160,7 +160,7 @@ Section Rules.
   Proof.
     intros Ft. unfold guarded_iadd. eapply sat_bind; [apply sat_view|]. intros a _.
     eapply sat_bind; [apply sat_view|]. intros b _.
-    destruct a, b; try (apply sat_iop; auto).
+    destruct a, b; try (apply sat_iop; auto); try apply sat_raise.
     destruct (length xs =? length xs0); [apply sat_iop; auto|apply sat_raise].
   Qed.
   Lemma sat_csum_step total v : fresh h0 total -> sat h0 (csum_step total v) (fresh h0).
@@ -176,7 +176,7 @@ Section Rules.
     all: eapply sat_bind; [apply sat_view|]; intros a _;
          eapply sat_bind; [apply sat_view|]; intros b _;
          destruct a, b;
-         try (eapply sat_bind; [apply sat_binop|]; intros; apply sat_iop; auto).
+         try (eapply sat_bind; [apply sat_binop|]; intros; apply sat_iop; auto); try apply sat_raise.
     all: destruct (length xs =? length xs0); [|apply sat_raise];
          eapply sat_bind; [apply sat_binop|]; intros; apply sat_iop; auto.
   Qed.
@@ -190,12 +190,19 @@ Section Rules.
     eapply sat_bind; [apply sat_view|]. intros x _.
     destruct x; try apply sat_raise; [apply sat_ret; exact I|apply sat_new_arr].
   Qed.
+  Lemma sat_py_div c total s : sat h0 (py_div c total s) (fresh h0).
+  Proof.
+    unfold py_div. eapply sat_bind; [apply sat_view|]. intros x _.
+    eapply sat_bind; [apply sat_view|]. intros y _.
+    destruct x; try apply sat_binop. destruct y; try apply sat_binop.
+    destruct z0; try apply sat_binop. apply sat_raise.
+  Qed.
   Lemma sat_cwa c values weights : sat h0 (conforming_weighted_average c values weights) (fresh h0).
   Proof.
     unfold conforming_weighted_average.
     eapply sat_bind; [apply sat_foldM; [intros; apply sat_cwa_step; auto|exact I]|]. intros total _.
     eapply sat_bind; [apply sat_py_sum|]. intros s _.
-    eapply sat_bind; [apply sat_binop|]. intros q Fq. apply sat_apply_post; auto.
+    eapply sat_bind; [apply sat_py_div|]. intros q Fq. apply sat_apply_post; auto.
   Qed.
   Lemma sat_agg_key c ds ks k : sat h0 (agg_key c ds ks k) (fun kv => fresh h0 (snd kv)).
   Proof.
